@@ -19,6 +19,10 @@
 
 
 
+#include <limits>
+
+
+
 #include <cstring>
 
 
@@ -549,7 +553,10 @@ ElemNumber::getCountString(
         if (DoubleSupport::isNaN(theValue) == true ||
             DoubleSupport::isPositiveInfinity(theValue) == true ||
             DoubleSupport::isNegativeInfinity(theValue) == true ||
-            DoubleSupport::lessThan(theValue, 0.5) == true)
+            DoubleSupport::lessThan(theValue, 0.5) == true ||
+            // Too large to be converted to CountType, which would be
+            // undefined.  (The limit is rounded up to a power of 2.)
+            theValue >= static_cast<double>(std::numeric_limits<CountType>::max()))
         {
             NumberToDOMString(theValue, theResult);
         }
